@@ -1,12 +1,112 @@
 (* Property C01 -- Learner1D: reported loss is the true worst-interval loss of
-   the current data.  Statements only; proofs in Proofs/L1DProofs.v. *)
-From AV Require Import Base.Prelude Model.L1D Proofs.L1DProofs.
+   the current data.  Statements only (each closed by [exact]); proofs are in
+   Proofs/L1DStruct.v, L1DLoss.v, L1DProofs.v.
 
-Theorem C01_discard_resets : forall (num : Type) (s : st num),
-  pend (remove_unfinished s) = [] /\
-  losc (remove_unfinished s) = los (remove_unfinished s) /\
-  nbc (remove_unfinished s) = nb (remove_unfinished s) /\
-  data (remove_unfinished s) = data s /\ los (remove_unfinished s) = los s.
-Proof. exact remove_unfinished_resets. Qed.
+   The theorems are about Model/L1D.v for EVERY number structure whose
+   comparison satisfies [OrdLaws] (a strict total order with decidable
+   equality), EVERY loss function L (an abstract function of the scaled
+   neighbourhood), every bounds / nth_neighbors / recompute factor, and every
+   history satisfying [legal].  [OrdLaws] is inhabited (Z below); IEEE doubles
+   satisfy it on the values a learner meets when no NaN occurs -- that, and
+   "model = code", is what the per-run correspondence validates.
 
+   Proved here:  (1) along every legal history the two loss tables are keyed
+   exactly by the neighbouring pairs of the evaluated, resp. evaluated-or-
+   pending, points, and evaluated/pending/data bookkeeping is consistent;
+   (2) loss(real) is infinite while an end point is neither evaluated nor
+   pending or no interval exists, and otherwise is the stored loss of an entry
+   of maximal sort key; (3) the rescale sweep recomputes EVERY interval at the
+   current scale (the defect repaired in /repo 6d8622d); (4) discarding
+   unfinished points makes the expected table equal the real one.
+   NOT proved (decided by the correspondence and the from-scratch oracle only,
+   hence C01 is partly `_partial`): the stored VALUES equal the loss function
+   on the current data at a scale within the factor for every interval along
+   whole histories (ghost-scale invariant), the interpolation values of cut
+   intervals, and the batch path of tell_many (excluded by [legal]). *)
+From Coq Require Import ZArith Lia.
+From AV Require Import Base.Prelude Model.L1D Proofs.L1DOrder Proofs.L1DMaps Proofs.L1DStruct Proofs.L1DLoss Proofs.L1DProofs.
+
+Section C01.
+  Variable num : Type.
+  Variables (add sub mul div : num -> num -> num).
+  Variables (ltb eqb : num -> num -> bool).
+  Variables (zero one inf neg_inf : num).
+  Variables (is_nan is_inf : num -> bool).
+  Variable round12 : num -> num.
+  Variable of_nat : nat -> num.
+  Variable L : list (option num) -> list (option (Y num)) -> num.
+  Variable P : params num.
+
+  Let run := @run num add sub mul div ltb eqb zero one inf neg_inf is_nan is_inf round12 of_nat L P.
+  Let init := @init num sub zero inf neg_inf P.
+  Let legal := @legal num add sub mul div ltb eqb zero one inf neg_inf is_nan is_inf round12 of_nat L P.
+  Let loss := @loss num sub div ltb eqb inf is_nan is_inf round12 P.
+  Let sweep := @sweep num sub mul div ltb eqb zero one is_nan is_inf round12 L P.
+  Let get_loss := @get_loss num sub div ltb eqb zero one L P.
+
+  Theorem C01_structure_inv : OrdLaws ltb eqb -> forall h,
+    legal init h = true -> SInv ltb eqb (run init h).
+  Proof. exact (@structure_inv num add sub mul div ltb eqb zero one inf neg_inf is_nan is_inf round12 of_nat L P). Qed.
+
+  Theorem C01_loss_is_max : OrdLaws ltb eqb -> forall (s : st num) (real : bool),
+    let table := if real then los s else losc s in
+    (missing_bounds eqb P s <> [] \/ table = [] -> loss s real = inf) /\
+    (missing_bounds eqb P s = [] -> table <> [] ->
+       exists e, In e table /\ loss s real = snd e /\
+                 forall e', In e' table ->
+                   ltb (fl sub div is_nan is_inf round12 (mgrx s) e)
+                       (fl sub div is_nan is_inf round12 (mgrx s) e') = false).
+  Proof. exact (@loss_is_max num sub div ltb eqb inf is_nan is_inf round12 P). Qed.
+
+  Theorem C01_sweep_resets_all : OrdLaws ltb eqb -> forall (s : st num) iv,
+    In iv (keys (los s)) ->
+    lget eqb iv (los (sweep s)) = Some (get_loss (sweep s) (fst iv) (snd iv)).
+  Proof. exact (@sweep_resets_all num sub mul div ltb eqb zero one is_nan is_inf round12 L P). Qed.
+
+  Theorem C01_discard_resets : forall (s : st num),
+    pend (remove_unfinished s) = [] /\
+    losc (remove_unfinished s) = los (remove_unfinished s) /\
+    nbc (remove_unfinished s) = nb (remove_unfinished s) /\
+    data (remove_unfinished s) = data s /\ los (remove_unfinished s) = los s.
+  Proof. exact (@remove_unfinished_resets num). Qed.
+End C01.
+
+(* ---- the law record is inhabited: integers ---- *)
+Lemma Z_ord_laws : OrdLaws Z.ltb Z.eqb.
+Proof.
+  constructor.
+  - intros x y. apply Z.eqb_eq.
+  - intros x. apply Z.ltb_irrefl.
+  - intros x y z H1 H2. apply Z.ltb_lt in H1, H2. apply Z.ltb_lt. lia.
+  - intros x y H1 H2. apply Z.ltb_ge in H1, H2. lia.
+Qed.
+
+(* ---- non-vacuity: a concrete history (pending point cutting an evaluated
+        interval, an ask, a discard) is legal, so the invariant applies ---- *)
+Definition zP : params Z := mkparams 0%Z 100%Z 0%Z 0 2%Z.
+Definition zL (xs : list (option Z)) (ys : list (option (Y Z))) : Z := 7%Z.
+Definition zh : list (op Z) :=
+  [Tell 0%Z (YS 5%Z); Tell 100%Z (YS 9%Z); TellPending 50%Z; Ask 2 true;
+   Tell 50%Z (YS 400%Z); RemoveUnfinished; Tell 25%Z (YS 1%Z)].
+Definition zrun := @run Z Z.add Z.sub Z.mul Z.div Z.ltb Z.eqb 0%Z 1%Z 1000000000%Z (-1000000000)%Z
+                        (fun _ => false) (fun z => Z.eqb (Z.abs z) 1000000000%Z) (fun z => z) Z.of_nat zL zP.
+Definition zinit := @init Z Z.sub 0%Z 1000000000%Z (-1000000000)%Z zP.
+Example C01_example :
+  @legal Z Z.add Z.sub Z.mul Z.div Z.ltb Z.eqb 0%Z 1%Z 1000000000%Z (-1000000000)%Z
+         (fun _ => false) (fun z => Z.eqb (Z.abs z) 1000000000%Z) (fun z => z) Z.of_nat zL zP zinit zh = true /\
+  map fst (los (zrun zinit zh)) = [(0, 25); (25, 50); (50, 100)]%Z /\
+  SInv Z.ltb Z.eqb (zrun zinit zh).
+Proof.
+  assert (Hl : @legal Z Z.add Z.sub Z.mul Z.div Z.ltb Z.eqb 0%Z 1%Z 1000000000%Z (-1000000000)%Z
+         (fun _ => false) (fun z => Z.eqb (Z.abs z) 1000000000%Z) (fun z => z) Z.of_nat zL zP zinit zh = true)
+    by (vm_compute; reflexivity).
+  split; [exact Hl|]. split; [vm_compute; reflexivity|].
+  exact (@C01_structure_inv Z Z.add Z.sub Z.mul Z.div Z.ltb Z.eqb 0%Z 1%Z 1000000000%Z (-1000000000)%Z
+           (fun _ => false) (fun z => Z.eqb (Z.abs z) 1000000000%Z) (fun z => z) Z.of_nat zL zP Z_ord_laws zh Hl).
+Qed.
+
+Print Assumptions C01_structure_inv.
+Print Assumptions C01_loss_is_max.
+Print Assumptions C01_sweep_resets_all.
 Print Assumptions C01_discard_resets.
+Print Assumptions C01_example.
